@@ -1,6 +1,6 @@
 SPECIFICATION Spec
 CONSTANTS MaxLen = 6 Wide = FALSE
-  Kinds <- AllKinds
+  Kinds <- ThoroughKinds
 INVARIANT Aggregate
 INVARIANT Yielded
 INVARIANT FreshEquiv
